@@ -49,6 +49,9 @@ TECHNIQUE = ('runtime contracts on the real measure functions with an independen
              'partial transpose), relational re-invocation for local-unitary invariance, and a ghost-state postcondition on the '
              'models\' forward() evaluated at every parameter value an optimiser or a random draw produces')
 LEVEL_TEXT = 'held on the monitored executions (sampled states and parameter vectors)'
+LEVEL_NOTE = ('get_gme_2qubit is only accurate to ~1e-4 (absolute) on states whose concurrence is within ~1e-5 of 1: the 1e-8 error '
+              'of the concurrence is amplified by sqrt(1-C^2). Value and local-unitary comparisons of the GME in that zone are counted '
+              'as inconclusive (ill-conditioned), finiteness / range / the defining formula are still judged there.')
 MODEL_KINDS = ['eof', 'concurrence', 'gme', 'linear_entropy']
 DECIDING = ['get_concurrence_2qubit', 'get_eof_2qubit', 'get_gme_2qubit', 'get_concurrence_pure', 'get_eof_pure', 'get_negativity',
             'relation/eof-formula', 'relation/gme-formula', 'relation/local-unitary', 'relation/pure-state', 'relation/pt-sign',
@@ -70,10 +73,10 @@ def shards(tier, seed):
                 {'name': 'measures-maxent', 'n': 2500, 'part': 'maxent'}]
     else:
         for k in MODEL_KINDS:
-            ret += [{'name': f'model-{k}-{i}', 'kind': k, 'nstate': 50, 'lbfgs': 18} for i in range(3)]
-        ret += [{'name': f'measures-generic-{i}', 'n': 1300, 'part': 'generic'} for i in range(2)]
-        ret += [{'name': f'measures-special-{i}', 'n': 1300, 'part': 'special'} for i in range(2)]
-        ret += [{'name': f'measures-maxent-{i}', 'n': 12000, 'part': 'maxent'} for i in range(2)]
+            ret += [{'name': f'model-{k}-{i}', 'kind': k, 'nstate': 150, 'lbfgs': 50} for i in range(4)]
+        ret += [{'name': f'measures-maxent-{i}', 'n': 20000, 'part': 'maxent'} for i in range(2)]
+        ret += [{'name': f'measures-generic-{i}', 'n': 3000, 'part': 'generic'} for i in range(3)]
+        ret += [{'name': f'measures-special-{i}', 'n': 3000, 'part': 'special'} for i in range(3)]
     return ret
 
 
